@@ -14,6 +14,7 @@ import (
 	"github.com/bronlabs/bron-crypto/pkg/signatures/ecdsa"
 	"github.com/bronlabs/bron-crypto/pkg/signatures/schnorrlike/bip340"
 	vanilla "github.com/bronlabs/bron-crypto/pkg/signatures/schnorrlike/schnorr"
+	"github.com/bronlabs/bron-crypto/pkg/proofs/sigma/compiler/fischlin"
 )
 
 type mpcBaseShardK256 = mpc.BaseShard[*k256Point, *k256Scalar]
@@ -172,5 +173,52 @@ func init() {
 		ac := mustAccess("cnf:1,200|3,4000000000000|1,3")
 		r := runTrustedDealer(cK256, ac, NewRng(c.Seed, 7))
 		return r.Net.StatusStr()
+	})
+}
+
+func init() {
+	addProtoSelfTest("hjky/k256 th2of3", func(c *Ctx) string {
+		ac := mustAccess("th:2:1,2,3")
+		ids := accessIDs(ac)
+		r := runHJKY(cK256, ac, dealerContexts(ids, NewRng(c.Seed, 8)), partyRngs(c.Seed, 200, ids), nil)
+		z := ""
+		for _, id := range ids {
+			if v := r.VV[id]; len(v) > 0 {
+				z += pointStr(v[0]) + " "
+			}
+		}
+		return fmt.Sprintf("%s shares=%d V0=%s", r.Net.StatusStr(), len(r.Shares), z)
+	})
+	addProtoSelfTest("redistribute/k256 th2of3->th2of4", func(c *Ctx) string {
+		d := runTrustedDealer(cK256, mustAccess("th:2:1,2,3"), NewRng(c.Seed, 7))
+		next := mustAccess("th:2:2,3,4,9")
+		all := []ID{1, 2, 3, 4, 9}
+		r := runRedistribute([]ID{1, 2, 3}, d.Shards, next, dealerContexts(all, NewRng(c.Seed, 8)), partyRngs(c.Seed, 200, all), nil)
+		same := len(r.Shards) > 0
+		for _, sh := range r.Shards {
+			same = same && sh.PublicKeyValue().Equal(d.Shards[1].PublicKeyValue())
+		}
+		return fmt.Sprintf("%s shards=%d samePK=%v", r.Net.StatusStr(), len(r.Shards), same)
+	})
+	addProtoSelfTest("redistribute-runner/k256 refresh", func(c *Ctx) string {
+		d := runTrustedDealer(cK256, mustAccess("th:2:1,2,3"), NewRng(c.Seed, 7))
+		all := []ID{1, 2, 3}
+		r := runRedistributeRunner(all, d.Shards, mustAccess("th:2:1,2,3"), dealerContexts(all, NewRng(c.Seed, 8)), partyRngs(c.Seed, 200, all))
+		return fmt.Sprintf("%s shards=%d", r.Net.StatusStr(), len(r.Shards))
+	})
+	addProtoSelfTest("lindell17 deal(3072)+sign/k256", func(c *Ctx) string {
+		if !c.Thorough() {
+			return "skipped in quick tier (3 Paillier keys of 3072 bits)"
+		}
+		t0 := time.Now()
+		shards, cls := runLindell17Deal(cK256, mustAccess("th:2:1,2,3"), 3072, NewRng(c.Seed, 7))
+		dealT := time.Since(t0)
+		if cls != "ok" {
+			return "deal " + cls
+		}
+		suite, _ := ecdsa.NewSuite(cK256, sha256.New)
+		q := []ID{1, 3}
+		r := runLindell17Sign(suite, shards, 1, 3, dealerContexts(q, NewRng(c.Seed, 9)), []byte("hello"), partyRngs(c.Seed, 300, q), nil, fischlin.Name)
+		return fmt.Sprintf("deal=%v %s sig=%v %s", dealT.Round(time.Millisecond), r.Net.StatusStr(), r.Sig != nil, r.Net.statusSummary())
 	})
 }
